@@ -160,6 +160,17 @@ CLAIMED["C01"] = dict(
          "are handed out under the source's lock. Quiescence detection under a racy schedule and the per-source split arithmetic are not decided.",
     note="Trusted: clang, AST export; C08 container guarantees; the run flag is a plain bool eventually seen by all workers.")
 
+CLAIMED["C20"] = dict(
+    level="other", design="3/C20",
+    technique="static analysis: extraction of the unit table, SI-name table, conversion list and of every default unit literal in the "
+              "library (call-site query over all units) with exact rational consistency checks; structural stack-discipline rule on the YAML parser",
+    text="Decides the self-consistency of the built-in tables and of all their users: SI-prefixed table entries differ from their base unit by "
+         "exactly the prefix power; every quantity has an SI name made of factor-1 table units; every default unit literal passed to "
+         "get_physical_value/get_physical_vector anywhere in the library parses and has the dimension of its quantity (or a registered "
+         "conversion); the parameter-file parser keeps group and indentation stacks in lock step, closes every deeper group on a dedent and "
+         "clears both on a top-level line. The parse/print round trip for arbitrary trees, printed precision and the HDF5 snapshot path are not decided.",
+    note="Trusted: clang, AST export, sympy rationals; literal values are read as written in the source.")
+
 NOT_APPLICABLE = {
     "C13": "Equality with the RANLUX sequence, range [0,1) and byte-identical snapshots are facts about computed 48-bit arithmetic and library I/O; no sound static domain or on-disk reference to validate against. Its one structural clause (generator state fully dumped/restored) is decided under C09.",
     "C15": "Validity of a Voronoi tessellation and agreement of two constructions quantify over real generator sets; correctness rests on geometric predicates and flip sequences whose outcomes are runtime values; no clause has its truth in the shape of the code.",
